@@ -34,6 +34,7 @@ import re
 
 TOK = re.compile(r'''
    (?P<ws>\s+)
+ | (?P<str>"(?:[^"\\]|\\.)*")
  | (?P<num>0x[0-9a-fA-F]+|\d+)
  | (?P<id>[A-Za-z_\u0080-￿][A-Za-z0-9_\u0080-￿$\#]*)
  | (?P<op><==>|==>|::|\+\+|&&|\|\||==|!=|<=|>=|<<|>>|&\^|[-+*/%<>!&|^().,\[\]:?{}=@;])
@@ -186,6 +187,8 @@ class P:
         k, v = self.next()
         if k == 'num':
             return ('num', int(v, 0))
+        if k == 'str':
+            return ('str', v[1:-1])
         if k == 'id':
             if v in ('forall', 'exists'):
                 vs = []
@@ -597,7 +600,7 @@ def parse_file(path, specs, pkgpath=None, go_file=True, allow_assume=False):
             elif kw == 'using':
                 cur_top.using.append(Clause('using', rest, None, ln, where))
             elif kw == 'flag' or kw == 'deterministic':
-                cur_top.flags.update((rest or kw).split())
+                (cur if cur is not cur_top else cur_top).flags.update((rest or kw).split())
             elif kw == 'owns':
                 cur_top.owns.append(rest)
             elif kw == 'fork':
